@@ -682,7 +682,10 @@ class Interp(EvalMixin, BuiltinMixin):
             self.havoc_lvalue(lv, sfr)
         if k > 0:
             self.py_raise(whens[k - 1][0])
-        result = fresh(con.returns_, "ret", run) if con.returns_ is not None and not _has_alias(con.returns_) else None
+        if con.returns_ is not None and "'match'" in repr(con.returns_):
+            result = self.make_value(con.returns_, "ret")
+        else:
+            result = fresh(con.returns_, "ret", run) if con.returns_ is not None and not _has_alias(con.returns_) else None
         if con.returns_ is not None and _has_alias(con.returns_):
             # ("tuple", [...]) whose ("alias", param) components ARE the argument objects (returned by reference)
             result = tuple(bound[d[1]] if (isinstance(d, tuple) and d[0] == "alias") else fresh(d, f"ret.{i}", run)
@@ -749,6 +752,13 @@ class Interp(EvalMixin, BuiltinMixin):
             return ListV([self.make_value(x, f"{base}[{i}]") for i, x in enumerate(d[1])])
         if isinstance(d, tuple) and d[0] == "func":
             return FuncRef(self.index.func(d[1]))
+        if isinstance(d, tuple) and d[0] == "match":
+            # an abstract successful regex match with d[1] capture groups (fresh strings); .group(k) / .groups() read them
+            m = MatchV(None, None, None)
+            m.groups_map = {k: fresh("str", f"{base}.g{k}", self.run) for k in range(1, d[1] + 1)}
+            return m
+        if isinstance(d, tuple) and d[0] == "opt" and isinstance(d[1], tuple) and d[1][0] == "match":
+            return OptV(fresh("bool", base + ".isnone", self.run), self.make_value(d[1], base))
         return fresh(d, base, self.run)
 
     def run_function(self, con, info, case=None):
